@@ -7,7 +7,7 @@ package core
 // C01: a transition requested through the API that fails leaves the environment in ERROR: GO_ERROR is attempted and,
 // if that is refused too, the state is forced.
 //@ func (m *RpcServer) ControlEnvironment(cxt context.Context, req *pb.ControlEnvironmentRequest) (reply *pb.ControlEnvironmentReply, err error)
-//@   property C01
+//@   property C01 C02
 //@   ghostvar tries int = 0
 //@   ghostvar firstErr bool = false
 //@   ghostvar lastErr bool = false
@@ -18,6 +18,8 @@ package core
 //@   ensures tries <= 2
 //@   ensures tries >= 1 && firstErr ==> tries == 2 && (!lastErr || forced)
 //@   ensures tries >= 1 && !firstErr ==> tries == 1
+// C02: a transition that failed is answered with an error, whatever becomes of the GO_ERROR that follows it
+//@   [C02] ensures firstErr ==> err != nil
 
 // C06: destroy = teardown (retried once with force), then - unless the caller keeps the tasks - a kill request for every
 // task of the workflow; a teardown that fails even with force is answered with an error status, never with success.
